@@ -1,4 +1,5 @@
-"""Named mutations of /repo for the C07 self-test:  MUTNAME=<name> tools/mutate.sh C07 harness/c07_mutations.py
+"""Named mutations of /repo for the C07 self-test:  harness/c07_mutrun.sh <name>...  (own scratch copy, regenerates only
+C07's Gen file afterwards)  or  MUTNAME=<name> tools/mutate.sh C07 harness/c07_mutations.py
 (run inside the scratch copy; every mutation keeps tests/codegen, tests/symbolic and tests/test_sympy.py passing unless
 noted in design/C07.md)."""
 import os
@@ -71,6 +72,20 @@ elif name == "surplus_arguments_ignored":
     # *args, but the strictness of the binding is gone for too MANY arguments only
     sub(ST, "dict(zip(fn_args, model_args, strict=True)), simultaneous=True",
         "dict(zip(fn_args, model_args[: len(fn_args)], strict=True)), simultaneous=True")
+elif name == "constants_first":
+    # seeded C07-8 in a shape the extractor does not know: a module float constant wins over the symbol table
+    sub(ST, "    value = ctx.symbols.get(node.id)\n    if value is None:",
+        "    value = ctx.symbols.get(node.id)\n"
+        "    if node.id in dict(inspect.getmembers(ctx.parent_module, predicate=lambda x: isinstance(x, float))):\n"
+        "        value = None\n"
+        "    if value is None:")
+elif name == "constants_first_seeded":
+    subprocess.run(["patch", "-p1", "-s", "-i", "/verif/seeded/C07-8/patch.diff"], check=True)
+elif name == "zero_via_printer":
+    subprocess.run(["patch", "-p1", "-s", "-i", "/verif/seeded/C07-9/patch.diff"], check=True)
+elif name == "zero_integer_literal":
+    # the explicit zero written as the integer literal 0 (fine in Python / TypeScript, E0308 in Rust)
+    sub(CG, 'v="0.0"', 'v="0"')
 elif name == "empty_argument_list_fix":
     subprocess.run(["patch", "-p1", "-s", "-i", "/verif/fixes/C07-empty-argument-list-strict.diff"], check=True)
 else:
